@@ -33,6 +33,12 @@ def run(ctx):
         r5(ctx, facts, cfg)
         r6(ctx, facts, cfg)
         r7(ctx, facts, cfg)
+        from rules import c02
+        from rules.c09 import Renamed
+        bn = {m.base: m for m in facts.fns if m.config == cfg and m.cls == c02.CLS and not m.rec.get("ctor") and not m.rec.get("dtor")}
+        if "empty" not in bn:
+            raise AnalysisBroken("UnboundedSPSCQueue::empty not found")
+        c02.check_empty_semantics(ctx, bn, rule="C03.R5f")
 
 
 def r1(ctx, facts, cfg):
